@@ -908,6 +908,9 @@ func main() {
 	big := pconn.PaddedMessage("big", 8192)
 	big.Name = "big8k"
 	catalogue["big8k"] = big
+	huge := pconn.PaddedMessage("huge", 100<<10)
+	huge.Name = "big100k"
+	catalogue["big100k"] = huge
 
 	var in Input
 	if _, ok := rep.ReplayInput(&in); ok {
@@ -984,6 +987,29 @@ func main() {
 	}
 	for _, s := range [][]string{{"req", "not"}, {"ses", "msg"}, {"rsp", "req"}} {
 		enumDuplex(p, s)
+	}
+	// both tiers: an envelope far larger than any buffer of the decoder (100 KiB), with small
+	// envelopes right behind it, delivered coalesced, in large and small chunks and split in
+	// two around the envelope boundaries (what was read ahead must not be lost)
+	{
+		hugeS := []string{"req", "big100k", "not", "msg"}
+		_, hw := cleanWire(hugeS)
+		hn := len(hw)
+		b1 := catalogue["req"].Size()
+		b2 := b1 + huge.Size()
+		b3 := b2 + catalogue["not"].Size()
+		var hgrid []int
+		for _, m := range []int{b1, b2, b3, 4096, 65536, 65536 + b1, hn - 1} {
+			for d := -1; d <= 1; d++ {
+				if m+d > 0 && m+d < hn {
+					hgrid = append(hgrid, m+d)
+				}
+			}
+		}
+		sort.Ints(hgrid)
+		rep.Set("huge_stream", map[string]interface{}{"stream": "req,big100k,not,msg", "bytes": hn, "grid_points": len(hgrid)})
+		enumReadGrid(p, hugeS, 2, hgrid)
+		enumReadChunks(p, hugeS, []int{4096, 65536, 1 << 20})
 	}
 	if rep.Thorough() {
 		n4 := 0
